@@ -108,6 +108,10 @@ func (fm *ForwardMessage) DecodeMsg(dc *msgp.Reader) error {
 		return msgp.WrapError(err, "Array Header")
 	}
 
+	if sz != 2 && sz != 3 {
+		return msgp.ArrayError{Wanted: 3, Got: sz}
+	}
+
 	if fm.Tag, err = dc.ReadString(); err != nil {
 		return msgp.WrapError(err, "Tag")
 	}
@@ -171,6 +175,10 @@ func (fm *ForwardMessage) UnmarshalMsg(bits []byte) ([]byte, error) {
 
 	if sz, bits, err = msgp.ReadArrayHeaderBytes(bits); err != nil {
 		return bits, msgp.WrapError(err, "Array Header")
+	}
+
+	if sz != 2 && sz != 3 {
+		return bits, msgp.ArrayError{Wanted: 3, Got: sz}
 	}
 
 	if fm.Tag, bits, err = msgp.ReadStringBytes(bits); err != nil {
